@@ -338,6 +338,12 @@ fn variable_constants(ctx: &Ctx) {
     consts.push("00".into());
     consts.push("0x0".into());
     consts.push("9223372036854775808".into()); // too large: both must be errors
+    // hexadecimal and octal constants of magnitude 2^63 .. 2^64 and beyond: errors, never wrapped
+    for c in ["0x8000000000000000", "0X8000000000000001", "0xFFFFFFFFFFFFFFFF", "0x10000000000000000", "01000000000000000000000", "01777777777777777777777", "02000000000000000000000"] {
+        consts.push(c.into());
+    }
+    consts.push("0x7fffffffffffffff".into());
+    consts.push("0777777777777777777777".into());
     consts.push("08".into()); // invalid octal: both must be errors
     consts.push("0x".into());
     consts.push("1a".into());
